@@ -413,13 +413,52 @@ func TestC15_JWTBearer(t *testing.T) {
 		})
 		var log []string
 		var usedJTIs []string
-		n := rapid.IntRange(1, 5).Draw(rt, "presentations")
+		usedUntil := map[string]time.Time{} // jti -> exp of the assertion that carried it
+		type acceptedAssertion struct {
+			form url.Values
+			auth h.Auth
+			exp  time.Time
+			jti  bool
+		}
+		var acceptedOnes []acceptedAssertion
+		n := rapid.IntRange(1, 6).Draw(rt, "presentations")
 		nontrivial := false
 		var shape []string
 		for i := 0; i < n; i++ {
+			switch rapid.IntRange(0, 5).Draw(rt, "step") {
+			case 0:
+				d := []time.Duration{maxDur / 4, maxDur/2 + 10*time.Second, maxDur + time.Minute}[rapid.IntRange(0, 2).Draw(rt, "advance")]
+				h.Advance(d)
+				log = append(log, fmt.Sprintf("advance %v", d))
+				shape = append(shape, "advance")
+				continue
+			case 1:
+				if len(acceptedOnes) == 0 {
+					break
+				}
+				a := acceptedOnes[rapid.IntRange(0, len(acceptedOnes)-1).Draw(rt, "which")]
+				tr := w.Token(a.form, a.auth, h.TokenOpts{Session: h.NewSess("")})
+				log = append(log, fmt.Sprintf("replay of an accepted assertion (exp in %v, jti=%v) -> %v", a.exp.Sub(h.Now()), a.jti, tr.Err))
+				shape = append(shape, "replay")
+				h.Label("bearer-replay-of-accepted-assertion")
+				if a.jti || a.exp.Before(h.Now().Add(-2*time.Second)) {
+					nontrivial = true
+					if tr.OK() || tr.Access != "" {
+						h.Violate(rt, "C15/jwt-bearer/replayed", "an already accepted JWT-bearer assertion (jti present: %v, exp in %v) was accepted again\n%s", a.jti, a.exp.Sub(h.Now()), strings.Join(log, "\n"))
+					}
+				}
+				continue
+			}
 			now := h.Now()
 			jti := fmt.Sprintf("bjti-%d-%s", i, rapid.StringMatching("[a-z]{6}").Draw(rt, "jti"))
 			claims := map[string]interface{}{"iss": "trusted-issuer", "sub": "user-1", "aud": []string{h.TokenURL}, "jti": jti, "exp": now.Add(maxDur / 2).Unix(), "iat": now.Unix()}
+			postDated := rapid.IntRange(0, 5).Draw(rt, "postDated") == 0
+			if postDated {
+				// issued "in the future": the lifetime bound is relative to iat, so such an assertion may live beyond
+				// now + max. Whether it is accepted is not asserted; if it is, it is single-use until its exp like any other
+				claims["iat"] = now.Add(maxDur * 8 / 10).Unix()
+				claims["exp"] = now.Add(maxDur * 13 / 10).Unix()
+			}
 			if rapid.Bool().Draw(rt, "audString") {
 				claims["aud"] = h.TokenURL
 			}
@@ -428,6 +467,11 @@ func TestC15_JWTBearer(t *testing.T) {
 			kid := "bk-1"
 			alg := "RS256"
 			nd := rapid.SampledFrom([]int{0, 0, 1, 1, 2}).Draw(rt, "nDefects")
+			if nd > 0 && postDated {
+				// the named defects are defined relative to an assertion issued now
+				postDated = false
+				claims["iat"], claims["exp"] = now.Unix(), now.Add(maxDur/2).Unix()
+			}
 			var fatal []string
 			var defects []string
 			for j := 0; j < nd; j++ {
@@ -476,8 +520,14 @@ func TestC15_JWTBearer(t *testing.T) {
 					}
 				case "jti-replayed":
 					if len(usedJTIs) > 0 {
-						claims["jti"] = usedJTIs[len(usedJTIs)-1]
-						fatal = append(fatal, d)
+						last := usedJTIs[len(usedJTIs)-1]
+						claims["jti"] = last
+						// a jti has to be remembered for as long as its assertion is honoured; afterwards re-use is unspecified
+						if usedUntil[last].After(now.Add(2 * time.Second)) {
+							fatal = append(fatal, d)
+						} else {
+							defects = append(defects, "jti-of-an-expired-assertion")
+						}
 					}
 				case "scope-not-covered":
 					scope = rapid.SampledFrom([]string{"c", "a c", "b", "*"}).Draw(rt, "badScope")
@@ -543,6 +593,18 @@ func TestC15_JWTBearer(t *testing.T) {
 				h.Label("bearer-accepted")
 				if j, ok := claims["jti"].(string); ok {
 					usedJTIs = append(usedJTIs, j)
+					if ef, ok := claims["exp"].(int64); ok {
+						usedUntil[j] = time.Unix(ef, 0)
+					} else {
+						usedUntil[j] = now.Add(1000 * time.Hour)
+					}
+				}
+				if ef, ok := claims["exp"].(int64); ok {
+					_, hasJTI := claims["jti"].(string)
+					acceptedOnes = append(acceptedOnes, acceptedAssertion{form, auth, time.Unix(ef, 0), hasJTI})
+				}
+				if postDated {
+					h.Label("bearer-post-dated-accepted")
 				}
 				if len(fatal) > 0 {
 					h.Violate(rt, "C15/jwt-bearer/accepted-with-defect", "JWT-bearer assertion accepted although: %v (options jtiOptional=%v iatOptional=%v skipClientAuth=%v maxDuration=%v)\n%s", fatal, idOptional, iatOptional, skipAuth, maxDur, strings.Join(log, "\n"))
@@ -552,7 +614,7 @@ func TestC15_JWTBearer(t *testing.T) {
 				if d.Active && d.Subject != "user-1" {
 					h.Violate(rt, "C15/jwt-bearer/wrong-subject", "token issued for subject %q, assertion subject user-1", d.Subject)
 				}
-			} else if len(fatal) == 0 && len(defects) == 0 {
+			} else if len(fatal) == 0 && len(defects) == 0 && !postDated {
 				h.Violate(rt, "C15/jwt-bearer/valid-refused", "a completely valid JWT-bearer assertion was refused: %v %s\n%s", tr.Err, tr.Err.Hint, strings.Join(log, "\n"))
 			}
 		}
